@@ -33,16 +33,18 @@ NEW = {
             "sizes: implementation == exact oracle == Coq model; plus UPGrad/DualProj(pref)/Krum through the pipeline. "
             "The executed QN model, mapped by Q2R, is proved equal to the RN model (C02_executed_model_is_the_real_model).",
             "DESIGN.md §8 C02, §15",
-            "Trusted: as C01. The end-to-end reading (M = d losses / d shared) holds when the features form a "
-            "cut (C15_chain); with nested features the code back-propagates through `features` as worded.",
+            "Trusted: as C01. The end-to-end reading is PROVED under the cut hypothesis (C02_matrix_is_jacobian: M is "
+            "the true Jacobian of the losses w.r.t. the shared parameters; C02_equals_backward_on_shared: same update as "
+            "backward(losses, A, inputs=shared) for any aggregator); with nested features the code back-propagates through "
+            "`features` as worded.",
             "Coq proof (R) + differential correspondence with exact forward-mode oracle"),
     "C05": ("proof",
             "Coq theorems (props/C05.v, reals): for every program, weight vector (negative and zero entries "
             "included), chunk size and input enumeration, backward with Constant(w) deposits for each input "
             "exactly materialize(ag_value tensors (w split per tensor) i), i.e. the model's specification of "
             "torch.autograd.backward(tensors, grad_tensors=w split), None read as zeros; Sum = cotangent of ones, "
-            "Mean = 1/m; shared parameters of mtl_backward with fixed weights = weighted sum of per-task pulled-"
-            "back gradients; slices of any Gramian-based weighting are independent of the input order. Oracle "
+            "Mean = 1/m; shared parameters of mtl_backward with Constant(w) = what torch.autograd.backward(losses, "
+            "grad_tensors=w) computes when the features form a cut (C05_mtl_constant); slices of any Gramian-based weighting are independent of the input order. Oracle "
             "exactly as the property words it: TWIN graphs, torchjd vs torch.autograd.backward / "
             "loss_i.backward(inputs=task_params_i), inputs passed as list/tuple/generator/iterator/dict view, "
             "f64 exact; third voice: the Coq model.",
@@ -121,7 +123,8 @@ NEW = {
             "scalar in key order with the scalar at its own position, per-key column blocks by accumulated "
             "offsets; Stack = member i's value in row i, zeros when absent, keys = union (all for any number "
             "type); over the reals: Grad = VJP of the given cotangents (zeros when unreachable), Jac row r = Grad "
-            "of row r for EVERY chunk size, VJP linear in the cotangents, chaining through a cut = end to end, "
+            "of row r for EVERY chunk size, VJP linear in the cotangents, chaining through a cut = end to end (at the VJP level and at the transform "
+            "level: Jac o Jac = Jac, Grad o Grad = Grad, for independent chunk sizes), "
             "Aggregate = aggregator on the column-wise concatenation in key order, each key its reshaped slice. "
             "Correspondence: the real transform classes on random programs/key sets (0-d..4-d, size-1 dims), "
             "dict insertion order != key order, the SAME Jac instance on batches of different sizes, chunk sizes "
